@@ -52,12 +52,13 @@ Proof. exact in_scope_b_spec. Qed.
 Print Assumptions C11_in_scope_b_spec.
 
 (** WebDAV file server, any tree (any depth and width, names distinct within a
-    directory), any target made of good segments, either spelling: the
+    directory), any target made of good segments without NUL byte (the server
+    refuses a path with one: 400), either spelling: the
     resources answered for, in order, are exactly the nodes of the tree in scope
     ([dav_expected] = the in-scope part of the enumeration [all_nodes] of the
     tree), each under an href that names it; a missing target is a 404. *)
 Theorem C11_scope_dav : forall t rs rt d,
-  tree_ok t = true -> segs_ok rs = true ->
+  tree_ok t = true -> segs_ok rs = true -> nul_free rs = true ->
   match dav_scope t (req_path [] rs rt) d with
   | Ok l => get t rs <> None /\
             exists hf, l = map (fun pn => (hf pn, snd pn)) (dav_expected t d rs) /\
@@ -151,7 +152,7 @@ Proof. exact hier_meets_spec. Qed.
 Print Assumptions C11_hier_meets_spec.
 
 Theorem C11_dav_meets_spec : forall t rs rt ct bd dh,
-  tree_ok t = true -> segs_ok rs = true ->
+  tree_ok t = true -> segs_ok rs = true -> nul_free rs = true ->
   dav_spec t rs ct bd dh (observe (dav_model t (req_path [] rs rt) ct bd dh)) = true.
 Proof. exact dav_meets_spec. Qed.
 Print Assumptions C11_dav_meets_spec.
